@@ -1456,3 +1456,418 @@ def cli_c18(v, tier, seed):
     build_shim()
     b = rq()
     cli.pool_run(v, c18_worker, [(seed * 1_000_003 + i, b) for i in range(n(tier, 120, 1500))])
+
+
+# ----------------------------------------------------------------------------
+# hook trace helpers
+
+
+def read_trace(path):
+    ev = []
+    if not os.path.exists(path):
+        return ev
+    with open(path, "r", encoding="utf-8", errors="surrogateescape") as f:
+        for l in f:
+            parts = l.rstrip("\n").split("\t", 3)
+            if len(parts) == 4:
+                ev.append({"seq": int(parts[0]), "tid": parts[1], "worker": parts[2], "key": parts[3]})
+    return ev
+
+
+def trace_summary(events):
+    """queues per apply worker, flagged indices, run-ahead per worker, unroll counts, timeouts"""
+    queues = {}
+    applied = {}
+    flagged = []
+    unroll = {}
+    timeouts = 0
+    loads = {}
+    saves = {}
+    dist = {}
+    for e in events:
+        k = e["key"]
+        if k.startswith("queue:"):
+            _, w, idx, name = k.split(":", 3)
+            queues.setdefault(w, []).append((int(idx), name))
+        elif k.startswith("apply-end:"):
+            body = k[len("apply-end:"):]
+            idx, rest = body.split(":", 1)
+            name, result = rest.rsplit(":", 1)
+            applied.setdefault(e["worker"], []).append((int(idx), name, result))
+        elif k.startswith("flagged:"):
+            flagged.append(int(k.split(":")[1]))
+        elif k.startswith("unroll:"):
+            unroll[e["worker"]] = unroll.get(e["worker"], 0) + 1
+        elif k.startswith("gate-timeout:"):
+            timeouts += 1
+        elif k.startswith("load:"):
+            loads.setdefault(k[5:], set()).add(e["worker"])
+        elif k.startswith("save-unlink:") or k.startswith("save-create:") or k.startswith("save-mkdirs:"):
+            saves.setdefault(k.split(":", 1)[1], set()).add(e["worker"])
+        elif k.startswith("dist:"):
+            name, th = k[5:].rsplit(":", 1)
+            dist[name] = int(th)
+    final = min(flagged) if flagged else None
+    depth = {}
+    for w, items in applied.items():
+        depth[w] = sum(1 for idx, _, _ in items if final is not None and idx > final)
+    return {"queues": queues, "applied": applied, "final": final, "depth": depth, "unroll": unroll, "timeouts": timeouts, "loads": loads, "saves": saves, "dist": dist}
+
+
+def interleaving_signature(summ):
+    """what the schedule realised: sorted run-ahead depth vector of the apply workers + unroll counts"""
+    return (tuple(sorted(summ["depth"].values())), tuple(sorted(summ["unroll"].values())))
+
+
+# ----------------------------------------------------------------------------
+# C06 parallel push equals single-threaded push under every schedule
+
+
+def c06_scripts(r, summ, nthreads):
+    """schedule scripts derived from an ungated traced run"""
+    scripts = []
+    queues = summ["queues"]
+    final = summ["final"]
+    workers = sorted(queues)
+    if final is not None:
+        failing_workers = [w for w in workers if any(idx == final for idx, _ in queues[w])]
+        others = [w for w in workers if w not in failing_workers and any(idx > final for idx, _ in queues[w])]
+        # 1. no run-ahead: nothing beyond the failing patch starts before the failure is flagged
+        lines = []
+        for w in workers:
+            for idx, name in queues[w]:
+                if idx > final:
+                    lines.append("after flagged:%d apply-begin:%d:%s 400" % (final, idx, name))
+        if lines:
+            scripts.append(("no-run-ahead", lines))
+        # 2. full run-ahead: the failing file patches wait until every other worker ended
+        lines = []
+        for fw in failing_workers:
+            for idx, name in queues[fw]:
+                if idx == final:
+                    for o in others:
+                        lines.append("after worker-end:%s apply-begin:%d:%s 400" % (o, idx, name))
+        if lines:
+            scripts.append(("full-run-ahead", lines))
+        # 3. one intermediate depth for a random other worker
+        for o in others:
+            beyond = [(idx, name) for idx, name in queues[o] if idx > final]
+            if len(beyond) >= 2:
+                d = r.randint(1, len(beyond) - 1)
+                lines = []
+                reach = beyond[d - 1]
+                nxt = beyond[d]
+                for fw in failing_workers:
+                    for idx, name in queues[fw]:
+                        if idx == final:
+                            lines.append("after apply-end:%d:%s:* apply-begin:%d:%s 400" % (reach[0], reach[1], idx, name))
+                lines.append("after flagged:%d apply-begin:%d:%s 400" % (final, nxt[0], nxt[1]))
+                scripts.append(("depth-%d" % d, lines))
+                break
+    # 4. random delays over all gate points (apply and save phase)
+    for _ in range(2):
+        lines = []
+        for w in workers:
+            for idx, name in queues[w]:
+                if r.random() < 0.3:
+                    lines.append("delay apply-begin:%d:%s %d" % (idx, name, r.choice([1, 3, 10, 30])))
+        for kind in ("save-unlink", "save-create", "save-mkdirs", "clean-readdir", "clean-rmdir", "save-worker-begin", "worker-begin"):
+            if r.random() < 0.4:
+                lines.append("delay %s:* %d" % (kind, r.choice([1, 2, 5])))
+        if lines:
+            scripts.append(("random-delays", lines))
+    return scripts
+
+
+def c06_worker(item):
+    seed, binary = item
+    r = random.Random(seed * 715225741 + 6)
+    res = Res()
+    cfg = wsgen.GenConfig(p_fail=0.65, max_patches=r.choice([3, 5, 8]), max_files=r.choice([3, 6, 8]), max_ops=r.choice([2, 3, 4]))
+    cfg.kinds = ["modify"] * 6 + ["create"] * 2 + ["delete"] * 3 + ["rename"] * 3 + ["chmod", "truncate"]
+    ws = wsgen.generate(seed, cfg)
+    nthreads = r.choice([2, 3, 4, 8, 16])
+    backup = r.choice(["always", None, "never"])
+    verbosity = r.choice(["-q", "-q", None])
+    dry = r.random() < 0.1
+    common_tail = (["--dry-run"] if dry else []) + ["push", "-a"]
+    a_seq = base_args(threads=1, backup=backup, verbosity=verbosity) + common_tail
+    a_par = base_args(threads=nthreads, backup=backup, verbosity=verbosity) + common_tail
+    with Scratch("c06") as scr:
+        orig, wseq = fresh(scr, ws, 0)
+        r1 = runner.run_rq(binary, wseq, a_seq)
+        if r1.timed_out:
+            res["inconclusive"] = "watchdog"
+            return res
+        o1 = cli.observe(wseq)
+        sigs = set()
+
+        def par_run(tag, script_lines):
+            w = os.path.join(scr, "par-%s" % tag)
+            runner.copy_ws(orig, w)
+            tr = os.path.join(scr, "trace-%s.log" % tag)
+            env = {"RAPIDQUILT_VERIF_TRACE": tr}
+            if script_lines:
+                sp = os.path.join(scr, "sched-%s.txt" % tag)
+                with open(sp, "w") as f:
+                    f.write("\n".join(script_lines) + "\n")
+                env["RAPIDQUILT_VERIF_SCHED"] = sp
+            rr = runner.run_rq(binary, w, a_par, env_extra=env)
+            res["evals"] += 1
+            summ = trace_summary(read_trace(tr))
+            if rr.timed_out:
+                res["inconclusive"] = "watchdog"
+                return summ, False
+            what = None
+            if rr.crashed():
+                res.viol({"class": "crash", "rc": str(rr.rc), "where": cli.crash_site(rr.err), "schedule": tag.split("#")[0]},
+                         "parallel run crashed under schedule %s: %s" % (tag, rr.err.decode("utf-8", "replace")[-400:]), orig, [binary] + a_par,
+                         extra={"schedule": script_lines, "workspace": ws.describe()})
+                return summ, False
+            o2 = cli.observe(w)
+            if rr.rc != r1.rc:
+                what = ("exit-status", "seq %s par %s; par stderr: %s" % (r1.rc, rr.rc, rr.err.decode("utf-8", "replace")[-300:]))
+            elif o1["applied"] != o2["applied"]:
+                what = ("applied-patches", "seq %r par %r" % (o1["applied"], o2["applied"]))
+            elif o1["tree"] != o2["tree"]:
+                dp = sorted(p for p in set(o1["tree"]) | set(o2["tree"]) if o1["tree"].get(p) != o2["tree"].get(p))
+                what = ("tree", "%s" % dp[:4])
+            elif o1["dirs"] != o2["dirs"]:
+                what = ("directories", "seq-only %r par-only %r" % (sorted(o1["dirs"] - o2["dirs"]), sorted(o2["dirs"] - o1["dirs"])))
+            elif o1["pc"] != o2["pc"]:
+                dp = sorted(p for p in set(o1["pc"]) | set(o2["pc"]) if o1["pc"].get(p) != o2["pc"].get(p))
+                what = ("pc", "%s" % dp[:4])
+            elif o1["rej"] != o2["rej"]:
+                what = ("rejects", "seq %r par %r" % (sorted(o1["rej"]), sorted(o2["rej"])))
+            if what:
+                res.viol({"class": "parallel-differs", "what": what[0], "schedule": tag.split("#")[0]},
+                         "threads=%d schedule %s: %s: %s" % (nthreads, tag, what[0], what[1]), orig, [binary] + a_par,
+                         extra={"schedule": script_lines, "sequential": a_seq, "workspace": ws.describe()})
+                return summ, False
+            sig = interleaving_signature(summ)
+            sigs.add((tag.split("#")[0],) + sig)
+            res.count("parallel-runs-compared")
+            res.count("schedule:%s" % tag.split("#")[0])
+            if summ["timeouts"]:
+                res.count("gate-timeouts", summ["timeouts"])
+            if any(d > 0 for d in summ["depth"].values()):
+                res.count("runs-with-run-ahead")
+                res.count("run-ahead-file-patches-unrolled", sum(summ["unroll"].values()))
+            return summ, True
+
+        summ0, ok = par_run("natural", None)
+        if not ok:
+            return res
+        scripts = c06_scripts(r, summ0, nthreads)
+        for i, (tag, lines) in enumerate(scripts):
+            _, ok = par_run("%s#%d" % (tag, i), lines)
+            if not ok:
+                return res
+        res.count("held-workspaces")
+        for s in sigs:
+            res["nontrivial"].append(case_key(cli.ws_shape_key(ws), nthreads, s))
+        res.count("distinct-interleaving-signatures", len(sigs))
+        if seed % 60 == 37:
+            res["sample"] = {"workspace": ws.describe(), "threads": nthreads, "args": a_par, "schedules_run": [t for t, _ in scripts], "example_script": scripts[0][1][:6] if scripts else None,
+                             "interleaving_signatures": sorted(repr(s) for s in sigs), "exit": r1.rc}
+    return res
+
+
+def cli_c06(v, tier, seed):
+    b = rq()
+    cli.pool_run(v, c06_worker, [(seed * 1_000_003 + i, b) for i in range(n(tier, 700, 12000))])
+
+
+# ----------------------------------------------------------------------------
+# C07 related file names are handled by the same worker
+
+
+def canonical_sequences(max_pairs, max_names):
+    """every sequence of (name, optional related name) pairs up to renaming: names are introduced in order 0,1,2,..."""
+    out = []
+
+    def rec(seq, used):
+        if seq:
+            out.append(list(seq))
+        if len(seq) == max_pairs:
+            return
+        for a in range(min(used + 1, max_names)):
+            ua = max(used, a + 1)
+            # single name
+            seq.append((a, None))
+            rec(seq, ua)
+            seq.pop()
+            for b in range(min(ua + 1, max_names)):
+                if b == a:
+                    continue
+                ub = max(ua, b + 1)
+                seq.append((a, b))
+                rec(seq, ub)
+                seq.pop()
+
+    rec([], 0)
+    return out
+
+
+def components(seq):
+    parent = {}
+
+    def find(x):
+        while parent.setdefault(x, x) != x:
+            parent[x] = parent[parent[x]]
+            x = parent[x]
+        return x
+
+    for a, b in seq:
+        find(a)
+        if b is not None:
+            ra, rb = find(a), find(b)
+            if ra != rb:
+                parent[ra] = rb
+    return {x: find(x) for x in parent}
+
+
+def c07_closure_batch(item):
+    """feed a batch of sequences x thread counts to the real FilenameDistributor through the hook sub-command"""
+    import subprocess
+    seqs, threads_list, binary, tag = item
+    res = Res()
+    lines = []
+    index = []
+    for th in threads_list:
+        lines.append("T %d" % th)
+        for s in seqs:
+            for a, b in s:
+                lines.append("P n%d" % a if b is None else "P n%d n%d" % (a, b))
+            lines.append("E")
+            index.append((th, s))
+    p = subprocess.run([binary, "verif-distribute"], input=("\n".join(lines) + "\n").encode(), stdout=subprocess.PIPE, stderr=subprocess.PIPE, timeout=300)
+    if p.returncode != 0:
+        res["violations"].append({"sig": {"class": "crash", "engine": "distributor-driver", "rc": str(p.returncode)}, "detail": p.stderr.decode("utf-8", "replace")[-400:], "payload": {}, "files": {}})
+        return res
+    outs = p.stdout.decode().split("\n")
+    for (th, s), line in zip(index, outs):
+        res["evals"] += 1
+        m = {}
+        for tok in line.split():
+            nme, t = tok.rsplit("=", 1)
+            m[int(nme[1:])] = int(t)
+        comp = components(s)
+        related = sum(1 for a, b in s if b is not None)
+        if related >= 2:
+            res["nontrivial"].append(case_key(tag, th, tuple(s)))
+        bad = None
+        for x in comp:
+            if x not in m:
+                bad = ("name-missing-from-map", x)
+                break
+            if not (0 <= m[x] < th):
+                bad = ("thread-out-of-range", x)
+                break
+        if not bad:
+            byroot = {}
+            for x, rt in comp.items():
+                byroot.setdefault(rt, set()).add(m[x])
+            if any(len(v) > 1 for v in byroot.values()):
+                bad = ("related-names-on-different-threads", None)
+        if bad:
+            res["violations"].append({"sig": {"class": bad[0], "engine": "distributor-driver"},
+                                      "detail": "pairs %r threads %d -> map %r" % (s, th, m), "payload": {"pairs": s, "threads": th, "map": m}, "files": {}})
+            if len(res["violations"]) > 5:
+                break
+        if len(comp) and max(len([1 for y in comp.values() if y == rt]) for rt in set(comp.values())) >= 3:
+            res.count("components-of>=3-names")
+    res.count("sequences-checked", len(index))
+    return res
+
+
+def c07_trace_worker(item):
+    """consequence in real pushes: every file is loaded by one apply worker and saved by one save worker"""
+    seed, binary = item
+    r = random.Random(seed * 817504243 + 7)
+    res = Res()
+    cfg = wsgen.GenConfig(p_fail=0.3, max_patches=r.choice([4, 8, 12]), max_files=r.choice([2, 4, 6]), max_ops=3)
+    cfg.kinds = ["modify"] * 4 + ["rename"] * 5 + ["create", "delete"]
+    ws = wsgen.generate(seed, cfg)
+    nthreads = r.choice([2, 3, 4, 7, 16])
+    args = base_args(threads=nthreads, backup=r.choice(["never", "always"]), verbosity="-q") + ["push", "-a"]
+    with Scratch("c07") as scr:
+        orig, work = fresh(scr, ws, 0)
+        tr = os.path.join(scr, "trace.log")
+        rr = runner.run_rq(binary, work, args, env_extra={"RAPIDQUILT_VERIF_TRACE": tr})
+        res["evals"] = 1
+        if rr.timed_out:
+            res["inconclusive"] = "watchdog"
+            return res
+        if rr.crashed():
+            res.viol({"class": "crash", "rc": str(rr.rc), "where": cli.crash_site(rr.err)}, rr.err.decode("utf-8", "replace")[-300:], orig, [binary] + args)
+            return res
+        summ = trace_summary(read_trace(tr))
+        for name, ws_ in summ["loads"].items():
+            if len(ws_) > 1:
+                res.viol({"class": "file-loaded-by-two-workers", "engine": "trace"}, "%s loaded by %s" % (name, sorted(ws_)), orig, [binary] + args, extra={"workspace": ws.describe()})
+                return res
+        for name, ws_ in summ["saves"].items():
+            if len(ws_) > 1:
+                res.viol({"class": "file-saved-by-two-workers", "engine": "trace"}, "%s saved by %s" % (name, sorted(ws_)), orig, [binary] + args, extra={"workspace": ws.describe()})
+                return res
+        # the distribution map of the real run against the relations of the series (ground truth from the generator)
+        pairs = []
+        for p in ws.patches:
+            for op in p.ops:
+                if op.new_path != op.path:
+                    pairs.append((op.path, op.new_path))
+                elif op.orig_style:
+                    pairs.append((op.path + ".orig", op.path))
+                else:
+                    pairs.append((op.path, None))
+        comp = components(pairs)
+        byroot = {}
+        for x, rt in comp.items():
+            if x in summ["dist"]:
+                byroot.setdefault(rt, set()).add(summ["dist"][x])
+        if any(len(v) > 1 for v in byroot.values()):
+            res.viol({"class": "related-names-on-different-threads", "engine": "trace"}, "distribution map %r splits a chain of %r" % (summ["dist"], pairs), orig, [binary] + args,
+                     extra={"workspace": ws.describe()})
+            return res
+        res.count("held-runs")
+        res.count("files-with-load-events", len(summ["loads"]))
+        res.count("files-with-save-events", len(summ["saves"]))
+        chains = [rt for rt in set(comp.values()) if sum(1 for y in comp.values() if y == rt) >= 3]
+        if chains:
+            res.count("runs-with-chains-of>=3-names")
+            res["nontrivial"].append(case_key("trace", cli.ws_shape_key(ws), nthreads))
+        if seed % 200 == 41:
+            res["sample"] = {"relations": pairs[:12], "threads": nthreads, "distribution_map": summ["dist"], "loaded_by": {k: sorted(v) for k, v in list(summ["loads"].items())[:8]}}
+    return res
+
+
+def cli_c07(v, tier, seed):
+    b = rq()
+    seqs = canonical_sequences(n(tier, 5, 6), 5)
+    v.extra["exhaustive_space"] = {"generator": "canonical sequences of <= %d pairs over <= 5 names" % n(tier, 5, 6), "size": len(seqs), "thread_counts": [2, 3, 4, 7, 16]}
+    batches = []
+    bs = 4000
+    for i in range(0, len(seqs), bs):
+        batches.append((seqs[i:i + bs], [2, 3, 4, 7, 16], b, "exh"))
+    # random longer sequences with repeats
+    r = random.Random(seed * 31 + 7)
+    rnd = []
+    for _ in range(n(tier, 20000, 300000)):
+        nn = r.randint(2, 12)
+        L = r.randint(2, 40)
+        s = []
+        for _ in range(L):
+            a = r.randrange(nn)
+            if r.random() < 0.7:
+                bb = r.randrange(nn)
+                s.append((a, bb if bb != a else None))
+            else:
+                s.append((a, None))
+            if s and r.random() < 0.2:
+                s.append(r.choice(s))
+        rnd.append(s)
+    for i in range(0, len(rnd), bs):
+        batches.append((rnd[i:i + bs], [r.choice([2, 3, 4, 7, 16])], b, "rnd"))
+    cli.pool_run(v, c07_closure_batch, batches)
+    cli.pool_run(v, c07_trace_worker, [(seed * 1_000_003 + i, b) for i in range(n(tier, 3000, 40000))])
